@@ -387,3 +387,27 @@ def _(c, L):
 from pvc.contract import REGISTRY as _R    # noqa: E402
 I.add_preserves(_R["server.Mailbox.close"])
 I.add_preserves(_R["server.Mailbox.add_message"])
+
+# count_listeners is a function of the pre-state: callers see the term itself
+_R["server.Mailbox.count_listeners"].result_term = lambda c: card(LS(c.pre)[c.self_ref])
+
+# Mailbox.open and _add_message commit too: their commit points must be Recoverable (C10)
+_names = [n for n in I.DB_INV if n != "I9a"]
+I.add_preserves(_R["server.Mailbox.open"], names=_names)
+
+
+@_R["server.Mailbox.open"].requires
+def _(c):
+    yield "I9a_but_this", I.I9a_but(c.pre, c.sf("_mailbox_id"))
+
+
+@_R["server.Mailbox.open"].ensures
+def _(c):
+    yield "preserves.I9a", I.I9a(c.post), ["C10"]
+
+
+I.add_preserves(_R["server.Mailbox._add_message"])
+for _q in ("server.Mailbox.open", "server.Mailbox._add_message"):
+    for _t in ("C10",):
+        if _t not in _R[_q].tags:
+            _R[_q].tags.append(_t)
